@@ -46,8 +46,6 @@ var knownClasses = []struct {
 	{"export/multiple-inline", []string{watgen.FeatMultiInlineExport}},
 	{"export/empty-name", []string{watgen.FeatEmptyExportName}},
 	{"print/export-name-escapes", []string{watgen.FeatHardExportName}},
-	{"print/import-param-names-dropped", []string{watgen.FeatImportParamNames}},
-	{"print/separate-func-export-dropped", []string{"separate_func_export"}},
 }
 
 type result struct {
@@ -137,9 +135,6 @@ func oracle(text string, model *watgen.Module) (key, what string, domain bool, h
 				}
 			}
 		}
-	}
-	if os.Getenv("C05_NOMASK") != "" {
-		class = ""
 	}
 	k := func(s string) string {
 		if class != "" {
